@@ -29,6 +29,7 @@ CONSTANTS
     SaltIds,      \* phase-transfer reactions (a salt problem has exactly one of them)
     SaltWith,     \* set of sets of homogeneous reactions a salt may be combined with
     KShifts,      \* decades by which a constant is shifted
+    SaltKShifts,  \* decades by which a solubility product is RAISED (both orientations): unsaturated salts
     InitSeq,      \* sequence of <<m, e>>: initial concentrations m * 10^e (solutes)
     InitPatterns, \* set of <<a, b>>: species s gets InitSeq[((a*s + b) % Len(InitSeq)) + 1]
     SolidInits,   \* set of <<m, e>> for the solid phase
@@ -120,6 +121,43 @@ WellConditioned ==
     /\ Homogeneous /\ Determined
     /\ \A i \in 1..NR : kshift[i] \in {-1, 0, 1}
     /\ \A j \in 1..NS : init[j][1] > 0 /\ (sys.ss[j] # 1 => init[j][2] \in -4..-2 /\ init[j][1] \in 1..9)
+(* Is the salt of a posed problem saturated?  Decided here, in decimal arithmetic on m * 10^e with   *)
+(* two-digit mantissas rounded outwards: the ion product of the FULLY DISSOLVED initial state against *)
+(* the solubility product.  "unsat": the upper bound of the ion product is below Ksp (no solid at     *)
+(* equilibrium), "sat": the lower bound is above, "marginal" otherwise.                               *)
+RECURSIVE TwoDigits(_, _, _)
+TwoDigits(m, e, up) == IF m < 100 THEN <<m, e>> ELSE TwoDigits((m + (IF up THEN 9 ELSE 0)) \div 10, e + 1, up)
+\* m1*10^e1 + k * m2*10^e2  (k >= 0), as <<m, e>> with e = min(e1, e2); exponent gaps stay small here
+DecAdd(a, k, b) ==
+    IF k = 0 \/ b[1] = 0 THEN a ELSE IF a[1] = 0 THEN <<k * b[1], b[2]>>
+    ELSE LET e == IF a[2] < b[2] THEN a[2] ELSE b[2]
+         IN  <<a[1] * IPow(10, a[2] - e) + k * b[1] * IPow(10, b[2] - e), e>>
+DecLess(a, b) ==       \* a < b for non-negative decimals with mantissas < 10^7
+    IF a[1] = 0 THEN b[1] > 0 ELSE IF b[1] = 0 THEN FALSE
+    ELSE IF a[2] - b[2] > 7 THEN FALSE ELSE IF b[2] - a[2] > 7 THEN TRUE
+    ELSE LET e == IF a[2] < b[2] THEN a[2] ELSE b[2]
+         IN  a[1] * IPow(10, a[2] - e) < b[1] * IPow(10, b[2] - e)
+IonProductBound(i, up) ==
+    LET s == SolidPos(i)
+        per == IF sys.nu[i][s] < 0 THEN -sys.nu[i][s] ELSE sys.nu[i][s]
+        js == SetToSortSeq(Ions(i), <)
+        d(j) == TwoDigits(DecAdd(init[j], Abs(sys.nu[i][j]) \div per, init[s])[1],
+                          DecAdd(init[j], Abs(sys.nu[i][j]) \div per, init[s])[2], up)
+        RECURSIVE Prod(_)
+        Prod(t) == IF t = 0 THEN <<1, 0>>
+                   ELSE LET p == Prod(t - 1)  dj == d(js[t])  n == Abs(sys.nu[i][js[t]])
+                        IN  TwoDigits(p[1] * IPow(dj[1], n), p[2] + n * dj[2], up)
+    IN  Prod(Len(js))
+\* the solubility product as ion product constant, whichever way the salt is written
+Ksp(i) == LET k == ProblemK[i] IN IF sys.nu[i][SolidPos(i)] < 0 THEN k ELSE <<1, -k[2] - 2>>  \* lower bound of 1/K
+KspUp(i) == LET k == ProblemK[i] IN IF sys.nu[i][SolidPos(i)] < 0 THEN k ELSE <<1, -k[2]>>     \* upper bound of 1/K
+Saturation ==
+    IF Homogeneous THEN "none"
+    ELSE LET i == PT[1] IN
+         IF DecLess(IonProductBound(i, TRUE), Ksp(i)) THEN "unsat"
+         ELSE IF DecLess(KspUp(i), IonProductBound(i, FALSE)) THEN "sat"
+         ELSE "marginal"
+
 \* required success rate of the default solver chain on well-conditioned problems
 RateNum == 19
 RateDen == 20
@@ -127,7 +165,13 @@ RateOK(nok, n) == n > 0 /\ RateDen * nok >= RateNum * n
 
 GenPickHomog == phase = "pick" /\ \E k \in 1..MaxHomog : \E S \in kSubset(k, HomogIds) : PickSystem(S)
 GenPickSalt == phase = "pick" /\ \E r \in SaltIds, W \in SaltWith : PickSystem({r} \cup W)
-GenShiftK == \E d \in KShifts : ShiftK(d)
+\* a solubility product is shifted towards "more soluble" whichever way the salt is written
+GenShiftK ==
+    /\ phase = "shift" /\ Len(kshift) < NR
+    /\ LET i == Len(kshift) + 1 IN
+       IF IsPhaseTransfer(sys.rs[i])
+       THEN \E d \in SaltKShifts : ShiftK(IF sys.nu[i][SolidPos(i)] < 0 THEN d ELSE -d)
+       ELSE \E d \in KShifts : ShiftK(d)
 GenPickInit == \E p \in InitPatterns, sol \in SolidInits, g \in GuessShifts : PickInit(p[1], p[2], sol, g)
 
 ------------------------------------------------------------------------------
@@ -394,7 +438,7 @@ PoolCase ==
                                             solid |-> j \in sys.solid]],
               nu |-> sys.nu, K |-> ProblemK, c0 |-> init, guess |-> guess, kshift |-> kshift],
      exp |-> [wellcond |-> WellConditioned, homog |-> Homogeneous, determined |-> Determined, single |-> (NR = 1 /\ Homogeneous /\ \A j \in 1..NS : init[j][1] > 0),
-              rate |-> <<RateNum, RateDen>>],
+              rate |-> <<RateNum, RateDen>>, saturation |-> Saturation],
      cls |-> IF ~Homogeneous THEN (IF sys.nu[PT[1]][SolidPos(PT[1])] < 0 THEN "salt-reac" ELSE "salt-prod")
              ELSE IF WellConditioned THEN "homog-well-" \o ToString(NR) ELSE "homog-hard-" \o ToString(NR)]
 ModelCase ==
